@@ -4,7 +4,8 @@ from props.hist import PLATFORMS, history, upd_size
 
 RULE = ("prefix (updates of boundary sizes, optionally set_input_offset at a valid offset first, finalize / count "
         "queries, clones) then reset, count, then a suffix replayed identically on the reset hasher and on a fresh "
-        "hasher of the same mode (observations must agree pairwise and with the model); trait Reset variants; clone "
+        "hasher of the same mode (observations must agree pairwise and with the model); prefixes that leave count() == 0 "
+        "without being initial (offset set, nothing or a zero-length update absorbed); trait Reset variants; clone "
         "divergence. Non-trivial = distinct history whose prefix absorbed more than one chunk or used an offset.")
 MODELLED = ["derived Clone as copying the model record"]
 ASSUMPTIONS = []
@@ -25,7 +26,12 @@ def gen_cases(seed, tier):
                 ops.append(f"so:0:{c * CHUNK}")
                 n = rng.choice([1, 1000, 1024, min(tz, 9) * CHUNK, min(tz, 9) * CHUNK - 1])
                 n = min(n, tz * CHUNK)
-                ops += [f"u:0:{bspec(rng, n)}", "c:0", "nr:0"]
+                if k % 9 == 3 or (k % 9 == 6 and tier != "thorough"):
+                    # a state that LOOKS empty (count() == 0) but is not the initial one: offset set, nothing absorbed
+                    # (with or without a zero-length update)
+                    ops += ([f"u:0:{bspec(rng, 0)}"] if k % 2 else []) + ["c:0"]
+                else:
+                    ops += [f"u:0:{bspec(rng, n)}", "c:0", "nr:0"]
             else:
                 ops += history(rng, plat, rng.range(1, 14), with_clone=False, budget=40 * CHUNK)
             reset = rng.choice(["r:0", "r:0", "tr:0"])
@@ -53,6 +59,10 @@ def gen_cases(seed, tier):
     # regression corpus: the reset-after-offset defect (fixed: 93483ed)
     lines.append("H hash detect so:0:1024 u:0:hex/00 r:0 c:0 f:0")
     lines.append("H hash portable so:0:4096 u:0:paint/0/3000 r:0 c:0 u:0:paint/0/5000 f:0 c:0")
+    # reset straight after set_input_offset (count() is 0 there): must still restore offset 0
+    for m in ms[:3]:
+        lines.append(f"H {m} detect so:0:2048 r:0 c:0 u:0:paint/0/3000 c:0 f:0 x:0:70")
+        lines.append(f"H {m} sse41 so:0:{(1 << 40) * CHUNK} u:0:hex/ tr:0 c:0 u:0:paint/5/1025 f:0")
     return number(lines)
 
 
